@@ -18,7 +18,7 @@ pub struct ReadOp {
     pub cls: String,
     pub off: u64,
     pub len: u64,
-    pub mode: String, // slice | stream | exact | chunks
+    pub mode: String, // slice | stream | exact | chunks | touch
 }
 
 #[derive(Deserialize, Clone)]
@@ -70,6 +70,10 @@ fn do_read(pack: &jbk::reader::ContentPack, op: &ReadOp) -> Result<bool, String>
         .get_content(jbk::ContentIdx::from(op.idx))
         .map_err(|e| format!("get_content: {e}"))?
         .ok_or("no such content")?;
+    if op.mode == "touch" {
+        // ask for the content and drop the region at once: its cluster starts decoding and nobody keeps it
+        return Ok(region.size().into_u64() == op.size);
+    }
     let expected = gen::content(op.cid, op.size, &op.cls);
     if region.size().into_u64() != op.size {
         return Ok(false);
